@@ -12,6 +12,7 @@ package main
 import (
 	"fmt"
 	"math"
+	"math/big"
 	"os"
 	"reflect"
 	"regexp"
@@ -29,20 +30,38 @@ import (
 // ---------- expression language of the model ----------
 
 type Expr struct {
-	Op   string  `json:"op"` // field lit neg add sub mul intdiv mod eq lt isnull coalesce if concat
+	Op   string  `json:"op"`
 	I    int     `json:"i,omitempty"`
-	Null bool    `json:"null,omitempty"`
 	Int  *int64  `json:"int,omitempty"`
+	Dec  *string `json:"dec,omitempty"` // decimal literal text
 	Str  *string `json:"str,omitempty"`
+	Sub  string  `json:"sub,omitempty"` // operator / cast target
+	P    int     `json:"p,omitempty"`
+	S    int     `json:"s,omitempty"`
 	A    *Expr   `json:"a,omitempty"`
 	B    *Expr   `json:"b,omitempty"`
 	C    *Expr   `json:"c,omitempty"`
+	L    []*Expr `json:"l,omitempty"`    // IN list; CASE: cond, value, cond, value ...
+	Else *Expr   `json:"else,omitempty"` // CASE
 }
 
-var colNames = []string{"a", "b", "s", "t"} // a BIGINT NOT NULL, b BIGINT NULL, s VARCHAR NOT NULL, t VARCHAR NULL
-var colIsStr = []bool{false, false, true, true}
+// a BIGINT NOT NULL, b BIGINT, u BIGINT UNSIGNED NOT NULL, w INT UNSIGNED, k SMALLINT, d DECIMAL(10,2), s VARCHAR NOT NULL, t VARCHAR
+var colNames = []string{"a", "b", "u", "w", "k", "d", "s", "t"}
+
+const coqBaseSchema = "[Col (TInt I64) false; Col (TInt I64) true; Col (TInt U64) false; Col (TInt U32) true; Col (TInt I16) true; Col (TDec 10 2) true; Col TStr false; Col TStr true]"
+
+var cmpSQL = map[string]string{"Eq": "=", "Ne": "<>", "Lt": "<", "Le": "<=", "Gt": ">", "Ge": ">="}
+var arithSQL = map[string]string{"Add": "+", "Sub": "-", "Mul": "*"}
 
 func (e *Expr) SQL() string {
+	bin := func(op string) string { return "(" + e.A.SQL() + " " + op + " " + e.B.SQL() + ")" }
+	fn := func(name string, args ...*Expr) string {
+		var xs []string
+		for _, x := range args {
+			xs = append(xs, x.SQL())
+		}
+		return name + "(" + strings.Join(xs, ", ") + ")"
+	}
 	switch e.Op {
 	case "field":
 		return colNames[e.I]
@@ -50,148 +69,383 @@ func (e *Expr) SQL() string {
 		switch {
 		case e.Int != nil:
 			return fmt.Sprintf("%d", *e.Int)
+		case e.Dec != nil:
+			return *e.Dec
 		case e.Str != nil:
 			return "'" + *e.Str + "'"
 		}
 		return "NULL"
 	case "neg":
 		return "(-" + e.A.SQL() + ")"
-	case "add":
-		return "(" + e.A.SQL() + " + " + e.B.SQL() + ")"
-	case "sub":
-		return "(" + e.A.SQL() + " - " + e.B.SQL() + ")"
-	case "mul":
-		return "(" + e.A.SQL() + " * " + e.B.SQL() + ")"
+	case "arith":
+		return bin(arithSQL[e.Sub])
 	case "intdiv":
-		return "(" + e.A.SQL() + " DIV " + e.B.SQL() + ")"
+		return bin("DIV")
 	case "mod":
-		return "(" + e.A.SQL() + " % " + e.B.SQL() + ")"
-	case "eq":
-		return "(" + e.A.SQL() + " = " + e.B.SQL() + ")"
-	case "lt":
-		return "(" + e.A.SQL() + " < " + e.B.SQL() + ")"
+		return bin("%")
+	case "cmp":
+		return bin(cmpSQL[e.Sub])
+	case "and":
+		return bin("AND")
+	case "or":
+		return bin("OR")
+	case "not":
+		return "(NOT " + e.A.SQL() + ")"
 	case "isnull":
 		return "(" + e.A.SQL() + " IS NULL)"
+	case "in":
+		var xs []string
+		for _, x := range e.L {
+			xs = append(xs, x.SQL())
+		}
+		return "(" + e.A.SQL() + " IN (" + strings.Join(xs, ", ") + "))"
+	case "between":
+		return "(" + e.A.SQL() + " BETWEEN " + e.B.SQL() + " AND " + e.C.SQL() + ")"
+	case "case":
+		out := "CASE"
+		for i := 0; i+1 < len(e.L); i += 2 {
+			out += " WHEN " + e.L[i].SQL() + " THEN " + e.L[i+1].SQL()
+		}
+		if e.Else != nil {
+			out += " ELSE " + e.Else.SQL()
+		}
+		return "(" + out + " END)"
+	case "nullif":
+		return fn("NULLIF", e.A, e.B)
+	case "ifnull":
+		return fn("IFNULL", e.A, e.B)
 	case "coalesce":
-		return "COALESCE(" + e.A.SQL() + ", " + e.B.SQL() + ")"
+		return fn("COALESCE", e.A, e.B)
 	case "if":
-		return "IF(" + e.C.SQL() + ", " + e.A.SQL() + ", " + e.B.SQL() + ")"
+		return fn("IF", e.C, e.A, e.B)
+	case "greatest":
+		return fn("GREATEST", e.A, e.B)
+	case "least":
+		return fn("LEAST", e.A, e.B)
+	case "cast":
+		t := map[string]string{"CSigned": "SIGNED", "CUnsigned": "UNSIGNED", "CChar": "CHAR"}[e.Sub]
+		if e.Sub == "CDecimal" {
+			t = fmt.Sprintf("DECIMAL(%d,%d)", e.P, e.S)
+		}
+		return "CAST(" + e.A.SQL() + " AS " + t + ")"
 	case "concat":
-		return "CONCAT(" + e.A.SQL() + ", " + e.B.SQL() + ")"
+		return fn("CONCAT", e.A, e.B)
+	case "upper":
+		return fn("UPPER", e.A)
+	case "substr":
+		return fmt.Sprintf("SUBSTRING(%s, %d, %d)", e.A.SQL(), e.P, e.S)
+	case "length":
+		return fn("LENGTH", e.A)
 	}
 	panic("op " + e.Op)
 }
 
-func coqVal(null bool, i *int64, s *string) string {
-	switch {
-	case i != nil:
-		return "(VInt " + lib.CoqZ(*i) + ")"
-	case s != nil:
-		b := []byte(*s)
-		items := make([]string, len(b))
-		for k, c := range b {
-			items[k] = fmt.Sprintf("%d%%Z", c)
-		}
-		return "(VStr " + lib.CoqList(items) + ")"
+func coqStrVal(s string) string {
+	b := []byte(s)
+	items := make([]string, len(b))
+	for k, c := range b {
+		items[k] = fmt.Sprintf("%d%%Z", c)
 	}
-	return "VNull"
+	return "(VStr " + lib.CoqList(items) + ")"
 }
 
+// decimal text "-12.50" -> VDec (-1250) 2
+func coqDecText(t string) string {
+	neg := strings.HasPrefix(t, "-")
+	t = strings.TrimPrefix(t, "-")
+	scale := 0
+	if i := strings.IndexByte(t, '.'); i >= 0 {
+		scale = len(t) - i - 1
+		t = t[:i] + t[i+1:]
+	}
+	t = strings.TrimLeft(t, "0")
+	if t == "" {
+		t = "0"
+	}
+	if neg && t != "0" {
+		t = "(-" + t + ")"
+	}
+	return fmt.Sprintf("(VDec %s %d)", t, scale)
+}
+
+func coqInt(v int64) string { return "(VInt " + lib.CoqZ(v) + ")" }
+
 func (e *Expr) Coq() string {
+	two := func(name string) string { return "(" + name + " " + e.A.Coq() + " " + e.B.Coq() + ")" }
 	switch e.Op {
 	case "field":
 		return fmt.Sprintf("(EField %d)", e.I)
 	case "lit":
-		return "(ELit " + coqVal(e.Null, e.Int, e.Str) + ")"
+		switch {
+		case e.Int != nil:
+			return "(ELit " + coqInt(*e.Int) + ")"
+		case e.Dec != nil:
+			return "(ELit " + coqDecText(*e.Dec) + ")"
+		case e.Str != nil:
+			return "(ELit " + coqStrVal(*e.Str) + ")"
+		}
+		return "(ELit VNull)"
 	case "neg":
 		return "(ENeg " + e.A.Coq() + ")"
+	case "arith":
+		return "(EArith " + e.Sub + " " + e.A.Coq() + " " + e.B.Coq() + ")"
+	case "intdiv":
+		return two("EIntDiv")
+	case "mod":
+		return two("EMod")
+	case "cmp":
+		return "(ECmp " + e.Sub + " " + e.A.Coq() + " " + e.B.Coq() + ")"
+	case "and":
+		return two("EAnd")
+	case "or":
+		return two("EOr")
+	case "not":
+		return "(ENot " + e.A.Coq() + ")"
 	case "isnull":
 		return "(EIsNull " + e.A.Coq() + ")"
+	case "in":
+		return "(EIn " + e.A.Coq() + " " + lib.CoqListOf(e.L, func(x *Expr) string { return x.Coq() }) + ")"
+	case "between":
+		return "(EBetween " + e.A.Coq() + " " + e.B.Coq() + " " + e.C.Coq() + ")"
+	case "case":
+		var bs []string
+		for i := 0; i+1 < len(e.L); i += 2 {
+			bs = append(bs, "("+e.L[i].Coq()+", "+e.L[i+1].Coq()+")")
+		}
+		els := "None"
+		if e.Else != nil {
+			els = "(Some " + e.Else.Coq() + ")"
+		}
+		return "(ECase " + lib.CoqList(bs) + " " + els + ")"
+	case "nullif":
+		return two("ENullIf")
+	case "ifnull":
+		return two("EIfNull")
+	case "coalesce":
+		return two("ECoalesce")
 	case "if":
 		return "(EIf " + e.C.Coq() + " " + e.A.Coq() + " " + e.B.Coq() + ")"
+	case "greatest":
+		return two("EGreatest")
+	case "least":
+		return two("ELeast")
+	case "cast":
+		t := e.Sub
+		if t == "CDecimal" {
+			t = fmt.Sprintf("(CDecimal %d %d)", e.P, e.S)
+		}
+		return "(ECast " + e.A.Coq() + " " + t + ")"
+	case "concat":
+		return two("EConcat")
+	case "upper":
+		return "(EUpper " + e.A.Coq() + ")"
+	case "substr":
+		return fmt.Sprintf("(ESubstr %s %s %s)", e.A.Coq(), lib.CoqZ(int64(e.P)), lib.CoqZ(int64(e.S)))
+	case "length":
+		return "(ELength " + e.A.Coq() + ")"
 	}
-	name := map[string]string{"add": "EAdd", "sub": "ESub", "mul": "EMul", "intdiv": "EIntDiv", "mod": "EMod", "eq": "EEq",
-		"lt": "ELt", "coalesce": "ECoalesce", "concat": "EConcat"}[e.Op]
-	return "(" + name + " " + e.A.Coq() + " " + e.B.Coq() + ")"
+	panic("op " + e.Op)
 }
 
-// genExpr produces a well-typed expression; str selects the text class.
-func genExpr(r *lib.RNG, str bool, depth int) *Expr {
-	if depth == 0 || r.Chance(1, 4) {
+func litInt(v int64) *Expr { return &Expr{Op: "lit", Int: &v} }
+
+// genExpr produces an expression of class cls: "int" (integer typed), "num" (integer or decimal), "str", "bool"
+func genExpr(r *lib.RNG, cls string, depth int) *Expr {
+	if cls == "num" {
 		if r.Chance(2, 3) {
-			if str {
-				return &Expr{Op: "field", I: 2 + r.Intn(2)}
+			cls = "int"
+		} else {
+			cls = "dec"
+		}
+	}
+	g := func(c string) *Expr { return genExpr(r, c, depth-1) }
+	if depth <= 0 || r.Chance(1, 4) {
+		switch cls {
+		case "str":
+			if r.Chance(2, 3) {
+				return &Expr{Op: "field", I: 6 + r.Intn(2)}
 			}
-			return &Expr{Op: "field", I: r.Intn(2)}
-		}
-		if str {
-			s := lib.Pick(r, []string{"", "a", "b", "ab", "B"})
-			return &Expr{Op: "lit", Str: &s}
-		}
-		v := int64(r.Range(-3, 5))
-		return &Expr{Op: "lit", Int: &v}
-	}
-	if str {
-		switch r.Intn(3) {
-		case 0:
-			return &Expr{Op: "concat", A: genExpr(r, true, depth-1), B: genExpr(r, true, depth-1)}
-		case 1:
-			return &Expr{Op: "coalesce", A: genExpr(r, true, depth-1), B: genExpr(r, true, depth-1)}
+			v := lib.Pick(r, []string{"", "a", "b", "ab", "B", "xyz"})
+			return &Expr{Op: "lit", Str: &v}
+		case "dec":
+			if r.Chance(1, 2) {
+				return &Expr{Op: "field", I: 5}
+			}
+			v := lib.Pick(r, []string{"1.5", "0.25", "-2.75", "10.0", "3.125"})
+			return &Expr{Op: "lit", Dec: &v}
+		case "bool":
+			return &Expr{Op: "cmp", Sub: lib.Pick(r, []string{"Eq", "Ne", "Lt", "Le", "Gt", "Ge"}), A: genExpr(r, "int", 0), B: genExpr(r, "int", 0)}
 		default:
-			return &Expr{Op: "if", C: genExpr(r, false, depth-1), A: genExpr(r, true, depth-1), B: genExpr(r, true, depth-1)}
+			if r.Chance(3, 5) {
+				return &Expr{Op: "field", I: r.Intn(5)}
+			}
+			if r.Chance(1, 10) {
+				return &Expr{Op: "lit"}
+			}
+			return litInt(int64(lib.Pick(r, []int{0, 1, 2, 3, 4, 7, -1, -3, 100, 127, 128, 200, 255, 256, 300, -129, 40000, 70000, 3000000000, 5000000000})))
 		}
 	}
-	switch r.Intn(11) {
-	case 0:
-		return &Expr{Op: "neg", A: genExpr(r, false, depth-1)}
-	case 1:
-		return &Expr{Op: "add", A: genExpr(r, false, depth-1), B: genExpr(r, false, depth-1)}
-	case 2:
-		return &Expr{Op: "sub", A: genExpr(r, false, depth-1), B: genExpr(r, false, depth-1)}
-	case 3:
-		return &Expr{Op: "mul", A: genExpr(r, false, depth-1), B: genExpr(r, false, depth-1)}
-	case 4:
-		return &Expr{Op: "intdiv", A: genExpr(r, false, depth-1), B: genExpr(r, false, depth-1)}
-	case 5:
-		return &Expr{Op: "mod", A: genExpr(r, false, depth-1), B: genExpr(r, false, depth-1)}
-	case 6:
-		k := r.Bool()
-		return &Expr{Op: "eq", A: genExpr(r, k, depth-1), B: genExpr(r, k, depth-1)}
-	case 7:
-		k := r.Bool()
-		return &Expr{Op: "lt", A: genExpr(r, k, depth-1), B: genExpr(r, k, depth-1)}
-	case 8:
-		return &Expr{Op: "isnull", A: genExpr(r, r.Bool(), depth-1)}
-	case 9:
-		return &Expr{Op: "coalesce", A: genExpr(r, false, depth-1), B: genExpr(r, false, depth-1)}
-	default:
-		return &Expr{Op: "if", C: genExpr(r, false, depth-1), A: genExpr(r, false, depth-1), B: genExpr(r, false, depth-1)}
+	switch cls {
+	case "str":
+		switch r.Intn(8) {
+		case 0:
+			return &Expr{Op: "concat", A: g(lib.Pick(r, []string{"str", "str", "int"})), B: g("str")}
+		case 1:
+			return &Expr{Op: "upper", A: g("str")}
+		case 2:
+			return &Expr{Op: "substr", A: g("str"), P: r.Range(-3, 4), S: r.Range(0, 3)}
+		case 3:
+			return &Expr{Op: "coalesce", A: g("str"), B: g("str")}
+		case 4:
+			return &Expr{Op: "if", C: g("bool"), A: g("str"), B: g("str")}
+		case 5:
+			return &Expr{Op: "cast", Sub: "CChar", A: g(lib.Pick(r, []string{"int", "dec"}))}
+		case 6:
+			return &Expr{Op: "ifnull", A: g("str"), B: g(lib.Pick(r, []string{"str", "int"}))}
+		default:
+			return genCase(r, "str", depth)
+		}
+	case "dec":
+		switch r.Intn(6) {
+		case 0:
+			return &Expr{Op: "arith", Sub: lib.Pick(r, []string{"Add", "Sub", "Mul"}), A: g("dec"), B: g("num")}
+		case 1:
+			return &Expr{Op: "mod", A: g("int"), B: g("int")}
+		case 2:
+			return &Expr{Op: "cast", Sub: "CDecimal", P: r.Range(12, 20), S: r.Range(1, 3), A: g("num")}
+		case 3:
+			return &Expr{Op: "neg", A: &Expr{Op: "field", I: 5}}
+		case 4:
+			return &Expr{Op: "nullif", A: g("dec"), B: g("num")}
+		default:
+			return &Expr{Op: "arith", Sub: "Mul", A: g("int"), B: &Expr{Op: "mod", A: g("int"), B: g("int")}}
+		}
+	case "bool":
+		switch r.Intn(8) {
+		case 0:
+			c := lib.Pick(r, []string{"num", "str"})
+			return &Expr{Op: "cmp", Sub: lib.Pick(r, []string{"Eq", "Ne", "Lt", "Le", "Gt", "Ge"}), A: g(c), B: g(c)}
+		case 1:
+			return &Expr{Op: "and", A: g("bool"), B: g("bool")}
+		case 2:
+			return &Expr{Op: "or", A: g("bool"), B: g("bool")}
+		case 3:
+			return &Expr{Op: "not", A: g(lib.Pick(r, []string{"bool", "int"}))}
+		case 4:
+			return &Expr{Op: "isnull", A: g(lib.Pick(r, []string{"int", "str", "dec"}))}
+		case 5:
+			n := r.Range(1, 3)
+			var l []*Expr
+			for i := 0; i < n; i++ {
+				l = append(l, g("int"))
+			}
+			return &Expr{Op: "in", A: g("int"), L: l}
+		case 6:
+			return &Expr{Op: "between", A: g("num"), B: g("int"), C: g("int")}
+		default:
+			return &Expr{Op: "and", A: g("int"), B: g("bool")}
+		}
 	}
+	switch r.Intn(14) {
+	case 0:
+		x := g("int")
+		if x.Op == "lit" {
+			x = &Expr{Op: "field", I: r.Intn(5)}
+		}
+		return &Expr{Op: "neg", A: x}
+	case 1, 2:
+		return &Expr{Op: "arith", Sub: lib.Pick(r, []string{"Add", "Sub", "Mul"}), A: g("int"), B: g("int")}
+	case 3:
+		return &Expr{Op: "intdiv", A: g("int"), B: g("int")}
+	case 4:
+		return genCase(r, "int", depth)
+	case 5:
+		return &Expr{Op: "nullif", A: g("int"), B: g("int")}
+	case 6:
+		return &Expr{Op: "ifnull", A: g("int"), B: g("int")}
+	case 7:
+		return &Expr{Op: "coalesce", A: g("int"), B: g("int")}
+	case 8:
+		return &Expr{Op: "if", C: g("bool"), A: g("int"), B: g("int")}
+	case 9:
+		return &Expr{Op: lib.Pick(r, []string{"greatest", "least"}), A: g("int"), B: g("int")}
+	case 10:
+		return &Expr{Op: "cast", Sub: lib.Pick(r, []string{"CSigned", "CUnsigned"}), A: g("num")}
+	case 11:
+		return &Expr{Op: "length", A: g("str")}
+	case 12:
+		return g("bool")
+	default:
+		return &Expr{Op: "intdiv", A: g("num"), B: g("int")}
+	}
+}
+
+func genCase(r *lib.RNG, cls string, depth int) *Expr {
+	n := r.Range(1, 2)
+	e := &Expr{Op: "case"}
+	for i := 0; i < n; i++ {
+		vc := cls
+		if cls == "int" && r.Chance(1, 5) {
+			vc = "dec"
+		}
+		e.L = append(e.L, genExpr(r, "bool", depth-1), genExpr(r, vc, depth-1))
+	}
+	if r.Chance(2, 3) {
+		vc := cls
+		if r.Chance(1, 6) {
+			vc = lib.Pick(r, []string{"int", "str"})
+		}
+		e.Else = genExpr(r, vc, depth-1)
+	}
+	return e
 }
 
 type BaseRow struct {
 	A int64   `json:"a"`
 	B *int64  `json:"b"`
+	U uint64  `json:"u"`
+	W *int64  `json:"w"`
+	K *int64  `json:"k"`
+	D *string `json:"d"`
 	S string  `json:"s"`
 	T *string `json:"t"`
 }
 
+type RelCase struct {
+	T1   [][2]*int64 `json:"t1"` // t1(a BIGINT NOT NULL, b BIGINT)
+	T2   [][2]*int64 `json:"t2"` // t2(a BIGINT NOT NULL, c INT UNSIGNED)
+	Kind string      `json:"kind"`
+}
+
 type caseT struct {
-	Kind  string    `json:"kind"` // model | sql
+	Kind  string    `json:"kind"` // model | sql | rel
 	Rows  []BaseRow `json:"rows,omitempty"`
 	Exprs []*Expr   `json:"exprs,omitempty"`
 	Setup []string  `json:"setup,omitempty"`
 	SQL   string    `json:"sql,omitempty"`
+	Rel   *RelCase  `json:"rel,omitempty"`
 }
 
 func genBase(r *lib.RNG) []BaseRow {
-	n := r.Range(0, 5)
+	n := r.Range(0, 4)
 	rows := make([]BaseRow, n)
+	opt := func(v int64) *int64 {
+		if r.Chance(1, 4) {
+			return nil
+		}
+		return &v
+	}
 	for i := range rows {
-		rows[i] = BaseRow{A: int64(r.Range(-3, 6)), S: lib.Pick(r, []string{"", "a", "b", "ab", "B"})}
-		if !r.Chance(1, 3) {
-			v := int64(r.Range(-2, 4))
-			rows[i].B = &v
+		rows[i] = BaseRow{A: int64(r.Range(-3, 9)), S: lib.Pick(r, []string{"", "a", "b", "ab", "B"}), U: uint64(r.Range(0, 12))}
+		if r.Chance(1, 5) {
+			rows[i].U = lib.Pick(r, []uint64{18446744073709551615, 9223372036854775808, 4294967296})
+		}
+		rows[i].B = opt(int64(r.Range(-4, 6)))
+		rows[i].W = opt(int64(lib.Pick(r, []int{0, 1, 2, 5, 9, 4000000000})))
+		rows[i].K = opt(int64(lib.Pick(r, []int{-300, -2, 0, 1, 3, 7, 32767})))
+		if !r.Chance(1, 4) {
+			v := lib.Pick(r, []string{"0.00", "1.50", "-2.25", "12.34", "99.99", "7.00"})
+			rows[i].D = &v
 		}
 		if !r.Chance(1, 3) {
 			v := lib.Pick(r, []string{"", "a", "b", "A"})
@@ -209,10 +463,11 @@ func sqlOpt[T any](p *T, f func(T) string) string {
 }
 
 func baseSetup(rows []BaseRow) []string {
-	out := []string{"CREATE TABLE m (id BIGINT PRIMARY KEY, a BIGINT NOT NULL, b BIGINT, s VARCHAR(20) NOT NULL, t VARCHAR(20))"}
+	out := []string{"CREATE TABLE m (id BIGINT PRIMARY KEY, a BIGINT NOT NULL, b BIGINT, u BIGINT UNSIGNED NOT NULL, w INT UNSIGNED, k SMALLINT, d DECIMAL(10,2), s VARCHAR(20) NOT NULL, t VARCHAR(20))"}
+	pi := func(v int64) string { return fmt.Sprint(v) }
 	for i, r := range rows {
-		out = append(out, fmt.Sprintf("INSERT INTO m VALUES (%d, %d, %s, '%s', %s)", i+1, r.A,
-			sqlOpt(r.B, func(v int64) string { return fmt.Sprint(v) }), r.S, sqlOpt(r.T, func(v string) string { return "'" + v + "'" })))
+		out = append(out, fmt.Sprintf("INSERT INTO m VALUES (%d, %d, %s, %d, %s, %s, %s, '%s', %s)", i+1, r.A, sqlOpt(r.B, pi), r.U, sqlOpt(r.W, pi), sqlOpt(r.K, pi),
+			sqlOpt(r.D, func(v string) string { return v }), r.S, sqlOpt(r.T, func(v string) string { return "'" + v + "'" })))
 	}
 	return out
 }
@@ -337,12 +592,51 @@ func checkResult(c *lib.Ctx, id int, ctx *sql.Context, cs caseT, q string, res e
 				continue
 			}
 			sig = fmt.Sprintf("%s/%s/%T-in-%s", sig, label, v, typeClass(col.Type))
+			if rc := typeRootCause(col, v); rc != "" {
+				sig = rc
+			}
 			if !reported[sig] {
 				reported[sig] = true
 				c.PredFail(id, sig, fmt.Sprintf("%s: column %q has type %s but holds %T(%v): %s", q, col.Name, col.Type, v, v, why), cs)
 			}
 		}
 	}
+}
+
+var negNameRe = regexp.MustCompile(`^\(?-[A-Za-z(]`)
+
+func isNegative(v interface{}) bool {
+	switch x := v.(type) {
+	case int8:
+		return x < 0
+	case int16:
+		return x < 0
+	case int32:
+		return x < 0
+	case int64:
+		return x < 0
+	case int:
+		return x < 0
+	}
+	return false
+}
+
+// typeRootCause names the typing rule behind a value that is not a value of the reported type (by the shape of the
+// column expression and of the reported type, not by the literal statement)
+func typeRootCause(col *sql.Column, v interface{}) string {
+	name := strings.ToLower(col.Name)
+	tn := strings.ToLower(col.Type.String())
+	switch {
+	case strings.HasSuffix(tn, "unsigned") && isNegative(v) && strings.Contains(name, " div "):
+		return "unsigned-type-holds-negative/intdiv-with-one-unsigned-operand"
+	case strings.HasSuffix(tn, "unsigned") && isNegative(v) && negNameRe.MatchString(name):
+		return "unsigned-type-holds-negative/unary-minus-keeps-small-unsigned-type"
+	case tn == "decimal(65,30)":
+		if d, ok := v.(*apd.Decimal); ok && d.NumDigits()+int64(d.Exponent) > 35 {
+			return "decimal-out-of-range/generalised-decimal-65-30-holds-wider-operand"
+		}
+	}
+	return ""
 }
 
 func typeClass(t sql.Type) string {
@@ -355,11 +649,125 @@ func typeClass(t sql.Type) string {
 
 // ---------- stream 1: modelled projections ----------
 
-func tclass(t sql.Type) string {
-	if types.IsText(t) {
-		return "KText"
+var decRe = regexp.MustCompile(`^decimal\((\d+),(\d+)\)$`)
+
+// coqTy renders the reported engine type as a model type (exact integer kind, decimal precision/scale)
+func coqTy(t sql.Type) string {
+	n := strings.ToLower(t.String())
+	if m := decRe.FindStringSubmatch(n); m != nil {
+		return fmt.Sprintf("(TDec %s %s)", m[1], m[2])
 	}
-	return "KNum"
+	switch n {
+	case "tinyint(1)":
+		return "TBool"
+	case "tinyint":
+		return "(TInt I8)"
+	case "tinyint unsigned":
+		return "(TInt U8)"
+	case "smallint":
+		return "(TInt I16)"
+	case "smallint unsigned":
+		return "(TInt U16)"
+	case "mediumint":
+		return "(TInt I24)"
+	case "mediumint unsigned":
+		return "(TInt U24)"
+	case "int":
+		return "(TInt I32)"
+	case "int unsigned":
+		return "(TInt U32)"
+	case "bigint":
+		return "(TInt I64)"
+	case "bigint unsigned":
+		return "(TInt U64)"
+	case "double", "float":
+		return "TDbl"
+	case "null":
+		return "TNull"
+	}
+	if types.IsText(t) {
+		return "TStr"
+	}
+	return "TDbl"
+}
+
+func coqSchema(sch sql.Schema) string {
+	var cols []string
+	for _, col := range sch {
+		cols = append(cols, fmt.Sprintf("Col %s %s", coqTy(col.Type), lib.CoqBool(col.Nullable)))
+	}
+	return lib.CoqList(cols)
+}
+
+func coqDecimal(d *apd.Decimal) string {
+	txt := d.Text('f')
+	return coqDecText(txt)
+}
+
+func coqEngineVal(v interface{}) string {
+	switch x := v.(type) {
+	case nil:
+		return "VNull"
+	case int64:
+		return coqInt(x)
+	case int8:
+		return coqInt(int64(x))
+	case int16:
+		return coqInt(int64(x))
+	case int32:
+		return coqInt(int64(x))
+	case int:
+		return coqInt(int64(x))
+	case uint8:
+		return coqInt(int64(x))
+	case uint16:
+		return coqInt(int64(x))
+	case uint32:
+		return coqInt(int64(x))
+	case uint64:
+		return fmt.Sprintf("(VInt %d)", x)
+	case bool:
+		if x {
+			return "(VInt 1)"
+		}
+		return "(VInt 0)"
+	case string:
+		return coqStrVal(x)
+	case *apd.Decimal:
+		return coqDecimal(x)
+	case apd.Decimal:
+		return coqDecimal(&x)
+	case float64:
+		if math.IsNaN(x) || math.IsInf(x, 0) {
+			return "(VDbl 0 0)"
+		}
+		rat := new(big.Rat).SetFloat64(x)
+		num, den := rat.Num().String(), rat.Denom().String()
+		if strings.HasPrefix(num, "-") {
+			num = "(" + num + ")"
+		}
+		return fmt.Sprintf("(VDbl %s %s)", num, den)
+	}
+	return "(VStr [0%Z])"
+}
+
+func coqRows(rows []sql.Row) string {
+	var outs []string
+	for _, row := range rows {
+		var vs []string
+		for _, v := range row {
+			vs = append(vs, coqEngineVal(v))
+		}
+		outs = append(outs, lib.CoqList(vs))
+	}
+	return lib.CoqList(outs)
+}
+
+func optInt(p *int64) string {
+	if p == nil {
+		return "VNull"
+	}
+	return coqInt(*p)
 }
 
 func runModel(c *lib.Ctx, cs caseT) {
@@ -379,95 +787,119 @@ func runModel(c *lib.Ctx, cs caseT) {
 		c.PredFail(id, "panic", q+": "+res.Panic, cs)
 		return
 	}
-	rows := make([]string, len(cs.Rows))
-	for i, r := range cs.Rows {
-		rows[i] = lib.CoqList([]string{coqVal(false, &r.A, nil), coqVal(r.B == nil, r.B, nil), coqVal(false, nil, &r.S), coqVal(r.T == nil, nil, r.T)})
-	}
-	schema := "[Col TInt false; Col TInt true; Col TStr false; Col TStr true]"
-	exprs := lib.CoqListOf(cs.Exprs, func(e *Expr) string { return e.Coq() })
-	var osch []string
-	okTypes := true
-	if res.Err == nil {
-		for _, col := range res.Schema {
-			osch = append(osch, fmt.Sprintf("(%s, %s)", tclass(col.Type), lib.CoqBool(col.Nullable)))
-		}
-	}
-	out := "None"
-	if res.Err == nil {
-		var outs []string
-		for _, row := range res.Rows {
-			var vs []string
-			for _, v := range row {
-				switch x := v.(type) {
-				case nil:
-					vs = append(vs, "VNull")
-				case int64:
-					vs = append(vs, coqVal(false, &x, nil))
-				case int8, int16, int32, int, uint8, uint64, bool:
-					var y int64
-					switch z := x.(type) {
-					case int8:
-						y = int64(z)
-					case int16:
-						y = int64(z)
-					case int32:
-						y = int64(z)
-					case int:
-						y = int64(z)
-					case uint8:
-						y = int64(z)
-					case uint64:
-						y = int64(z)
-					case bool:
-						if z {
-							y = 1
-						}
-					}
-					vs = append(vs, coqVal(false, &y, nil))
-				case string:
-					vs = append(vs, coqVal(false, nil, &x))
-				case *apd.Decimal:
-					// BIGINT % BIGINT is evaluated in decimal arithmetic: an integral decimal stands for its integer
-					if y, err := x.Int64(); err == nil {
-						vs = append(vs, coqVal(false, &y, nil))
-					} else {
-						vs = append(vs, "VNull")
-					}
-				default:
-					okTypes = false
-					vs = append(vs, "VNull")
-				}
-			}
-			outs = append(outs, lib.CoqList(vs))
-		}
-		out = "(Some " + lib.CoqList(outs) + ")"
-	}
-	_ = okTypes
 	if res.Err != nil {
-		// schema unknown when the statement fails: the model must predict an evaluation error
-		osch = nil
-		for range cs.Exprs {
-			osch = append(osch, "(KNum, true)")
-		}
+		// an error returns no value: outside the property
 		c.Count("model_stmt_error:" + eng.ErrKind(res.Err))
-		// an error is outside the property (no value returned): predicate-only bookkeeping
-		id := c.CaseNoModel(cs, "")
-		_ = id
+		c.CaseNoModel(cs, "")
 		c.PredChecked()
 		return
 	}
-	term := lib.CoqTuple(schema, exprs, lib.CoqList(rows), lib.CoqList(osch), out)
+	rows := make([]string, len(cs.Rows))
+	for i, r := range cs.Rows {
+		d := "VNull"
+		if r.D != nil {
+			d = coqDecText(*r.D)
+		}
+		t := "VNull"
+		if r.T != nil {
+			t = coqStrVal(*r.T)
+		}
+		rows[i] = lib.CoqList([]string{coqInt(r.A), optInt(r.B), fmt.Sprintf("(VInt %d)", r.U), optInt(r.W), optInt(r.K), d, coqStrVal(r.S), t})
+	}
+	exprs := lib.CoqListOf(cs.Exprs, func(e *Expr) string { return e.Coq() })
+	term := "(CProj baseSchema " + exprs + " " + lib.CoqList(rows) + " " + coqSchema(res.Schema) + " " + coqRows(res.Rows) + ")"
 	key := ""
 	if len(cs.Rows) > 0 {
-		key = q + fmt.Sprint(cs.Rows)
+		key = q + fmt.Sprint(len(cs.Rows))
 	}
 	id := c.Case(term, cs, key)
 	c.Count("model_projection")
 	for _, ex := range cs.Exprs {
 		c.Count("expr_" + ex.Op)
 	}
-	ctx := sql.NewEmptyContext()
-	checkResult(c, id, ctx, cs, q, res)
+	checkResult(c, id, sql.NewEmptyContext(), cs, q, res)
+}
+
+// ---------- stream 1b: relational statements of the model ----------
+
+func relSetup(rc *RelCase) []string {
+	out := []string{"CREATE TABLE t1 (id BIGINT PRIMARY KEY AUTO_INCREMENT, a BIGINT NOT NULL, b BIGINT)", "CREATE TABLE t2 (id BIGINT PRIMARY KEY AUTO_INCREMENT, a BIGINT NOT NULL, c INT UNSIGNED)"}
+	pi := func(v int64) string { return fmt.Sprint(v) }
+	for _, r := range rc.T1 {
+		out = append(out, fmt.Sprintf("INSERT INTO t1 (a, b) VALUES (%d, %s)", *r[0], sqlOpt(r[1], pi)))
+	}
+	for _, r := range rc.T2 {
+		out = append(out, fmt.Sprintf("INSERT INTO t2 (a, c) VALUES (%d, %s)", *r[0], sqlOpt(r[1], pi)))
+	}
+	return out
+}
+
+func coqTable(schema string, rows [][2]*int64) string {
+	var rs []string
+	for _, r := range rows {
+		rs = append(rs, lib.CoqList([]string{optInt(r[0]), optInt(r[1])}))
+	}
+	return "(RTable " + schema + " " + lib.CoqList(rs) + ")"
+}
+
+var relKinds = map[string][2]string{
+	"inner":    {"SELECT t1.a, t1.b, t2.a, t2.c FROM t1 JOIN t2 ON t1.a = t2.a", "(RJoin JInner (ECmp Eq (EField 0) (EField 2)) T1 T2)"},
+	"left":     {"SELECT t1.a, t1.b, t2.a, t2.c FROM t1 LEFT JOIN t2 ON t1.a = t2.a", "(RJoin JLeft (ECmp Eq (EField 0) (EField 2)) T1 T2)"},
+	"right":    {"SELECT t1.a, t1.b, t2.a, t2.c FROM t1 RIGHT JOIN t2 ON t1.a = t2.a", "(RJoin JRight (ECmp Eq (EField 0) (EField 2)) T1 T2)"},
+	"leftproj": {"SELECT t1.a + t2.a, COALESCE(t2.c, t1.b) FROM t1 LEFT JOIN t2 ON t1.b = t2.a", "(RProject [EArith Add (EField 0) (EField 2); ECoalesce (EField 3) (EField 1)] (RJoin JLeft (ECmp Eq (EField 1) (EField 2)) T1 T2))"},
+	"union":    {"SELECT a, b FROM t1 UNION ALL SELECT a, c FROM t2", "(RUnion T1 T2)"},
+	"uniond":   {"SELECT b, a FROM t1 UNION SELECT c, a FROM t2", "(RDistinct (RUnion (RProject [EField 1; EField 0] T1) (RProject [EField 1; EField 0] T2)))"},
+	"filter":   {"SELECT a, b FROM t1 WHERE b > 1", "(RFilter (ECmp Gt (EField 1) (ELit (VInt 1))) T1)"},
+	"group":    {"SELECT a, COUNT(b), SUM(b), MIN(b), MAX(b), AVG(b) FROM t1 GROUP BY a", "(RGroup [0%nat] [(ACount, 1%nat); (ASum, 1%nat); (AMin, 1%nat); (AMax, 1%nat); (AAvg, 1%nat)] T1)"},
+	"global":   {"SELECT COUNT(c), SUM(c), MIN(c), MAX(a), AVG(c) FROM t2", "(RGroup [] [(ACount, 1%nat); (ASum, 1%nat); (AMin, 1%nat); (AMax, 0%nat); (AAvg, 1%nat)] T2)"},
+	"globalw":  {"SELECT COUNT(b), MAX(b) FROM t1 WHERE a > 100", "(RGroup [] [(ACount, 1%nat); (AMax, 1%nat)] (RFilter (ECmp Gt (EField 0) (ELit (VInt 100))) T1))"},
+	"derived":  {"SELECT q.m FROM (SELECT MAX(b) AS m FROM t1 WHERE a > 100) q", "(RProject [EField 0] (RGroup [] [(AMax, 1%nat)] (RFilter (ECmp Gt (EField 0) (ELit (VInt 100))) T1)))"},
+	"distinct": {"SELECT DISTINCT a, b FROM t1", "(RDistinct T1)"},
+	"groupjoin": {"SELECT t1.a, COUNT(t2.c), SUM(t2.c) FROM t1 LEFT JOIN t2 ON t1.a = t2.a GROUP BY t1.a", "(RGroup [0%nat] [(ACount, 3%nat); (ASum, 3%nat)] (RJoin JLeft (ECmp Eq (EField 0) (EField 2)) T1 T2))"},
+}
+
+func runRel(c *lib.Ctx, cs caseT) {
+	e := eng.New("db")
+	s := e.Session()
+	s.MustExec(relSetup(cs.Rel)...)
+	k := relKinds[cs.Rel.Kind]
+	cs.SQL = k[0]
+	res := s.Query(k[0])
+	if res.Panic != "" || res.Err != nil {
+		c.Count("rel_error")
+		c.CaseNoModel(cs, "")
+		c.PredChecked()
+		return
+	}
+	t1 := coqTable("[Col (TInt I64) false; Col (TInt I64) true]", cs.Rel.T1)
+	t2 := coqTable("[Col (TInt I64) false; Col (TInt U32) true]", cs.Rel.T2)
+	q := strings.ReplaceAll(strings.ReplaceAll(k[1], "T1", t1), "T2", t2)
+	term := "(CRel " + q + " " + coqSchema(res.Schema) + " " + coqRows(res.Rows) + ")"
+	id := c.Case(term, cs, cs.Rel.Kind+fmt.Sprint(len(cs.Rel.T1), len(cs.Rel.T2)))
+	c.Count("rel_" + cs.Rel.Kind)
+	checkResult(c, id, sql.NewEmptyContext(), cs, k[0], res)
+}
+
+func genRel(r *lib.RNG) *RelCase {
+	rc := &RelCase{}
+	kinds := lib.SortedKeys(relKinds)
+	rc.Kind = lib.Pick(r, kinds)
+	mk := func(n int, lo, hi int) [][2]*int64 {
+		var out [][2]*int64
+		for i := 0; i < n; i++ {
+			a := int64(r.Range(1, 4))
+			var b *int64
+			if !r.Chance(1, 3) {
+				v := int64(r.Range(lo, hi))
+				b = &v
+			}
+			out = append(out, [2]*int64{&a, b})
+		}
+		return out
+	}
+	rc.T1 = mk(r.Range(0, 4), -3, 5)
+	rc.T2 = mk(r.Range(0, 3), 0, 4)
+	return rc
 }
 
 // ---------- stream 2: statement mix (predicate only) ----------
@@ -598,21 +1030,27 @@ func runSQL(c *lib.Ctx, cs caseT) {
 }
 
 func run(c *lib.Ctx, cs caseT) {
-	if cs.Kind == "model" {
+	switch cs.Kind {
+	case "model":
 		runModel(c, cs)
-	} else {
+	case "rel":
+		runRel(c, cs)
+	default:
 		runSQL(c, cs)
 	}
 }
 
 func main() {
 	lib.Main("C09", func(c *lib.Ctx) {
-		c.Header = "From Coq Require Import List NArith ZArith.\nImport ListNotations.\nFrom GMS Require Import Expr.C09Typing Corr.C09.\nOpen Scope N_scope."
+		c.Header = "From Coq Require Import List NArith ZArith.\nImport ListNotations.\nFrom GMS Require Import Expr.C09Typing Rel.C09Rel Corr.C09.\nOpen Scope N_scope.\nDefinition baseSchema : schema := " + coqBaseSchema + "."
 		c.CaseType = "C09.case"
 		c.MismatchFn = "C09.mismatches"
 		c.SetRule("half of the cases: 1-4 well-typed expressions of depth <= 3 from the modelled fragment (columns a BIGINT NOT NULL, b BIGINT, " +
-			"s VARCHAR NOT NULL, t VARCHAR; literals; - + * DIV %; = <; IS NULL; COALESCE; IF; CONCAT) projected over 0-5 rows: reported " +
-			"type class and nullability and every value are compared with the Coq typing model. Other half: statements drawn from " +
+			"u BIGINT UNSIGNED NOT NULL, w INT UNSIGNED, k SMALLINT, d DECIMAL(10,2), s VARCHAR NOT NULL, t VARCHAR; integer literals of every width, decimal and text literals, NULL; " +
+			"unary minus, + - * DIV %, six comparisons, AND/OR/NOT, IS NULL, IN, BETWEEN, CASE with/without ELSE, NULLIF, IFNULL, COALESCE, IF, GREATEST/LEAST, CAST AS SIGNED/UNSIGNED/DECIMAL/CHAR, " +
+			"CONCAT/UPPER/SUBSTRING/LENGTH) projected over 0-4 rows: the exact reported type (integer kind and signedness, decimal precision/scale, text, boolean) and nullability " +
+			"and every value are compared with the Coq typing model; a tenth: relational statements (joins, UNION, GROUP BY aggregates, DISTINCT, filter) whose reported schema is compared " +
+			"with the model's code-rule schema and whose rows with the model's rows. Rest: statements drawn from " +
 			"ORDER BY/LIMIT, GROUP BY aggregates (incl. empty input), window functions with ROWS frames, scalar functions/CASE/CAST, " +
 			"LEFT/RIGHT/INNER/CROSS joins, UNION/INTERSECT/EXCEPT, subqueries over generated tables with NULLs: predicate only " +
 			"(Convert(v) == v in range; NOT NULL columns hold no NULL).")
@@ -624,12 +1062,27 @@ func main() {
 		}
 		i64 := func(v int64) *int64 { return &v }
 		str := func(v string) *string { return &v }
-		rows := []BaseRow{{A: 7, B: nil, S: "a", T: nil}, {A: 0, B: i64(2), S: "", T: str("b")}}
+		dtxt := "12.34"
+		rows := []BaseRow{{A: 7, B: nil, U: 9, W: i64(4000000000), K: i64(-300), D: &dtxt, S: "a", T: nil}, {A: 0, B: i64(2), U: 18446744073709551615, S: "", T: str("b")}}
 		f := func(i int) *Expr { return &Expr{Op: "field", I: i} }
-		lit := func(v int64) *Expr { return &Expr{Op: "lit", Int: &v} }
-		run(c, caseT{Kind: "model", Rows: rows, Exprs: []*Expr{{Op: "coalesce", A: f(1), B: &Expr{Op: "add", A: f(0), B: lit(1)}}, {Op: "intdiv", A: f(0), B: lit(0)}, {Op: "isnull", A: f(3)}, {Op: "concat", A: f(2), B: f(3)}}})
-		four := int64(4)
-		run(c, caseT{Kind: "model", Rows: []BaseRow{{A: 6, B: nil, S: "a", T: nil}}, Exprs: []*Expr{{Op: "mul", A: f(0), B: &Expr{Op: "mod", A: &Expr{Op: "lit", Int: &four}, B: f(0)}}}})
+		lit := litInt
+		arith := func(op string, a, b *Expr) *Expr { return &Expr{Op: "arith", Sub: op, A: a, B: b} }
+		run(c, caseT{Kind: "model", Rows: rows, Exprs: []*Expr{{Op: "coalesce", A: f(1), B: arith("Add", f(0), lit(1))}, {Op: "intdiv", A: f(0), B: lit(0)}, {Op: "isnull", A: f(7)}, {Op: "concat", A: f(6), B: f(7)}}})
+		// known findings of the expression typing rules (the _refuted witnesses of Props/C09.v)
+		run(c, caseT{Kind: "model", Rows: []BaseRow{{A: 6, S: "a"}}, Exprs: []*Expr{arith("Mul", f(0), &Expr{Op: "mod", A: lit(4), B: f(0)})}})
+		run(c, caseT{Kind: "model", Rows: []BaseRow{{A: 5000, B: i64(10000), S: "a"}}, Exprs: []*Expr{{Op: "mod", A: arith("Add", f(0), lit(100)), B: f(1)}}})
+		run(c, caseT{Kind: "model", Rows: []BaseRow{{A: 100000000, D: &dtxt, S: "a"}}, Exprs: []*Expr{arith("Add", f(5), f(0))}})
+		run(c, caseT{Kind: "model", Rows: []BaseRow{{A: 1, S: "a"}}, Exprs: []*Expr{{Op: "intdiv", A: lit(-500), B: lit(128)}}})
+		wide := []string{"CREATE TABLE z (id INT PRIMARY KEY, d DECIMAL(50,0) NOT NULL, a BIGINT NOT NULL, t8 TINYINT UNSIGNED NOT NULL, t16 SMALLINT UNSIGNED NOT NULL, t24 MEDIUMINT UNSIGNED NOT NULL)",
+			"INSERT INTO z VALUES (1, 10000000000000000000000000000000000000000, 3, 5, 5, 5)"}
+		for _, q := range []string{"SELECT CASE WHEN a > 1 THEN d ELSE a END FROM z", "SELECT IF(a > 1, d, a), IFNULL(d, a) FROM z", "SELECT d FROM z UNION SELECT a FROM z", "SELECT -t8, -t16, -t24 FROM z", "SELECT -500 DIV t8 FROM z"} {
+			run(c, caseT{Kind: "sql", Setup: wide, SQL: q})
+		}
+		one, two, five := int64(1), int64(2), int64(5)
+		for _, k := range lib.SortedKeys(relKinds) {
+			run(c, caseT{Kind: "rel", Rel: &RelCase{Kind: k, T1: [][2]*int64{{&one, nil}, {&two, &five}, {&two, &one}}, T2: [][2]*int64{{&two, &one}, {&five, nil}}}})
+			run(c, caseT{Kind: "rel", Rel: &RelCase{Kind: k}})
+		}
 		mixRows := []string{"INSERT INTO t VALUES (1,1,NULL,NULL,'a','a',0.10,1.5,'2024-01-10'),(2,1,1,5,'b','B',NULL,NULL,NULL),(3,2,2,NULL,NULL,NULL,1.25,2.5,'2024-02-11')",
 			"INSERT INTO u VALUES (1,1,NULL,'p'),(2,5,2,'')"}
 		for _, q := range []string{
@@ -653,16 +1106,19 @@ func main() {
 		} {
 			run(c, caseT{Kind: "sql", Setup: append(append(append([]string(nil), mixSetup...), mixRows...), wRows...), SQL: q})
 		}
-		for i := 19; i < c.N; i++ {
+		for i := 60; i < c.N; i++ {
 			r := c.R.Fork()
-			if r.Bool() {
+			switch k := r.Intn(10); {
+			case k < 5:
 				n := r.Range(1, 4)
 				var es []*Expr
 				for j := 0; j < n; j++ {
-					es = append(es, genExpr(r, r.Chance(1, 3), r.Range(1, 3)))
+					es = append(es, genExpr(r, lib.Pick(r, []string{"int", "int", "num", "str", "bool"}), r.Range(1, 3)))
 				}
 				run(c, caseT{Kind: "model", Rows: genBase(r), Exprs: es})
-			} else {
+			case k < 6:
+				run(c, caseT{Kind: "rel", Rel: genRel(r)})
+			default:
 				run(c, caseT{Kind: "sql", Setup: genMixData(r), SQL: genMixQuery(r)})
 			}
 		}
